@@ -36,7 +36,7 @@ func registerC04() {
 	})
 }
 
-const c04NumBase = 44
+const c04NumBase = 54
 
 var (
 	c04BaseOnce sync.Once
@@ -71,6 +71,24 @@ func c04BaseFiles() ([][]byte, []string) {
 				p.HeaderCRCZero = i%5 == 4
 			}
 			add(p.Bytes(), fmt.Sprintf("model#%d(type %d, header %d)", i, ft, hs))
+		}
+		// 10 richer model files: unknown messages and fields, developer fields, compressed timestamps,
+		// narrow definitions, strings and arrays: bytes the decoder skips must be covered by the CRC too.
+		for i := 0; len(c04Base) < 44 && i < 400; i++ {
+			rng := lib.NewRand("C04.base.rich", uint64(i))
+			ft := lib.FileTypes[i%17].Type
+			o := lib.GenOpts{FileType: ft, Mesgs: lib.HostedMesgs(ft), Records: 2 + rng.Intn(3), Locals: 1 + rng.Intn(3), BigEndian: 50, MaxFields: 3,
+				Unknown: 80, Compressed: 40, Narrow: 30, NoTimeZero: true}
+			p := lib.NewPlanGen(rng, o).Fill()
+			hasDev := false
+			for _, r := range p.Records {
+				if r.IsDef && r.HasDev && len(r.Dev) > 0 {
+					hasDev = true
+				}
+			}
+			if b := p.Bytes(); len(b) <= 256 && hasDev {
+				add(b, fmt.Sprintf("rich-model#%d(type %d)", i, ft))
+			}
 		}
 		// 6 Encode outputs.
 		for i := 0; i < 6; i++ {
